@@ -122,6 +122,10 @@ enum Op {
     Checkpoint,
     /// the peer sends its current value of one key back to N (anti-entropy style)
     Echo { hash: bool, k: u8 },
+    /// any other client command at N (reads, TTL commands, conditional / read-modify-write /
+    /// multi-key / unrecorded / failing / unknown commands, FLUSHALL/FLUSHDB). `$V` in an
+    /// argument is replaced by a value unique to the step, `$N` by a unique number.
+    Local { argv: Vec<String> },
 }
 
 #[derive(Clone, Debug, Serialize, Deserialize)]
@@ -165,8 +169,81 @@ fn fields_strategy() -> impl Strategy<Value = Vec<u8>> {
     proptest::collection::btree_set(0u8..3, 1..3).prop_map(|s| s.into_iter().collect())
 }
 
+/// Commands that reach the shard actors between the tracked writes. Everything the
+/// coordinator routes (first key -> shard) or fans out (FLUSH*, KEYS, DBSIZE), whether
+/// `record_mutation_post_execute` records it, ignores it, or records it although it failed.
+/// String commands stay on string keys and hash commands on hash keys (type flips and their
+/// open findings belong to C06).
+fn local_cmd_strategy() -> impl Strategy<Value = Vec<String>> {
+    let p = pool();
+    let sk = (0usize..p.skeys.len()).prop_map(move |i| pool().skeys[i].clone());
+    let hk = (0usize..p.hkeys.len()).prop_map(move |i| pool().hkeys[i].clone());
+    let fl = (0usize..FIELDS.len()).prop_map(|i| FIELDS[i].to_string());
+    let t = |parts: &[&str]| -> Vec<String> { parts.iter().map(|x| x.to_string()).collect() };
+    (sk.clone(), sk, hk, fl, 0u8..56).prop_map(move |(s, s2, h, f, which)| {
+        let (s, s2, h, f) = (s.as_str(), s2.as_str(), h.as_str(), f.as_str());
+        match which {
+            // reads and server commands
+            0 => t(&["GET", s]),
+            1 => t(&["GET", h]),
+            2 => t(&["HGET", h, f]),
+            3 => t(&["HGETALL", h]),
+            4 => t(&["EXISTS", s]),
+            5 => t(&["EXISTS", s, s2]),
+            6 => t(&["MGET", s, s2]),
+            7 => t(&["TYPE", s]),
+            8 => t(&["TTL", s]),
+            9 => t(&["STRLEN", s]),
+            10 => t(&["KEYS", "*"]),
+            11 => t(&["DBSIZE"]),
+            12 => t(&["PING"]),
+            13 => t(&["HLEN", h]),
+            14 => t(&["NOSUCHCMD", s]),
+            // TTL commands (positive only: the clock never moves in this check)
+            15 => t(&["EXPIRE", s, "100"]),
+            16 => t(&["PEXPIRE", h, "100000"]),
+            17 => t(&["PERSIST", s]),
+            // recorded read-modify-write / conditional / multi-key commands
+            18 | 19 => t(&["INCR", s]),
+            20 => t(&["DECR", s]),
+            21 => t(&["INCRBY", s, "5"]),
+            22 | 23 => t(&["APPEND", s, "$V"]),
+            24 => t(&["GETSET", s, "$V"]),
+            25 | 26 => t(&["SET", s, "$V", "NX"]),
+            27 => t(&["SET", s, "$V", "XX"]),
+            28 | 29 => t(&["SET", s, "$N"]),
+            30 => t(&["SET", s, "$V", "EX", "100"]),
+            31 => t(&["SET", s, "$V", "GET"]),
+            32 => t(&["SET", s, "$V", "KEEPTTL"]),
+            33 | 34 => t(&["HINCRBY", h, f, "2"]),
+            35 => t(&["HSET", h, f, "$N"]),
+            36 | 37 => t(&["DEL", s, s2]),
+            38 => t(&["DEL", "nosuchkey"]),
+            39 => t(&["DEL", h]),
+            40 => t(&["HDEL", h, f, "f9"]),
+            // mutating commands the recorder ignores
+            41 => t(&["SETNX", s, "$V"]),
+            42 => t(&["MSET", s, "$V", s2, "$N"]),
+            43 => t(&["GETDEL", s]),
+            44 => t(&["INCRBYFLOAT", s, "1.5"]),
+            45 => t(&["SETRANGE", s, "0", "$V"]),
+            46 => t(&["LPUSH", "lst", "$V"]),
+            47 => t(&["SADD", "st", "$V"]),
+            // commands that fail
+            48 => t(&["LPUSH", s, "x"]),
+            49 => t(&["HSET", h]),
+            50 => t(&["INCRBY", s, "notanumber"]),
+            // whole-keyspace commands
+            51 | 52 | 53 => t(&["FLUSHALL"]),
+            54 => t(&["FLUSHDB"]),
+            _ => t(&["INFO"]),
+        }
+    })
+}
+
 fn op_strategy() -> impl Strategy<Value = Op> {
     prop_oneof![
+        9 => local_cmd_strategy().prop_map(|argv| Op::Local { argv }),
         6 => (0u8..4).prop_map(|k| Op::Set { k }),
         5 => (0u8..3, fields_strategy()).prop_map(|(k, f)| Op::HSet { k, f }),
         1 => (0u8..4).prop_map(|k| Op::Del { k }),
@@ -333,6 +410,12 @@ struct H<'a, 'b> {
     recovered_keys: BTreeSet<String>,
     peer_max: BTreeMap<(String, String), Stamp>,
     last_w: BTreeMap<(String, String), LastW>,
+    /// every (key, slot, stamp, content) N has been shown in this incarnation; a slot of a
+    /// local delta that is not in here was introduced by that command
+    shown_slots: BTreeSet<(String, String, Stamp, Option<Vec<u8>>)>,
+    /// keys whose executor entry may stem from a command the recorder ignores (SETNX, MSET, ...)
+    /// in this incarnation: "acknowledged delete => delta" is not demanded for them
+    unrecorded: BTreeSet<String>,
     trace: Vec<String>,
     nontrivial: bool,
 }
@@ -351,8 +434,15 @@ impl<'a, 'b> H<'a, 'b> {
         format!("{}\n  history (node N = replica {}):\n    {}", msg, N_ID, self.trace[from..].join("\n    "))
     }
 
+    fn note_slots(&mut self, key: &str, v: &ReplicatedValue) {
+        for (f, st, val) in slots_of(v) {
+            self.shown_slots.insert((key.to_string(), f, st, val));
+        }
+    }
+
     /// A value shown to N through ApplyRecoveredState (checkpoint entry).
     fn shown_ckpt(&mut self, key: &str, v: &ReplicatedValue) {
+        self.note_slots(key, v);
         let s = shard_of(key);
         for st in all_stamps(v) {
             self.seen_ckpt[s] = self.seen_ckpt[s].max(st);
@@ -366,6 +456,7 @@ impl<'a, 'b> H<'a, 'b> {
     /// stamps are attributed to the checkpoint class while the finding is open, so that the
     /// knock-on effect of the same root cause is recognised and nothing else is.
     fn shown_delta(&mut self, key: &str, v: &ReplicatedValue) {
+        self.note_slots(key, v);
         let s = shard_of(key);
         let outer = stamp(&v.timestamp);
         for st in all_stamps(v) {
@@ -385,9 +476,9 @@ impl<'a, 'b> H<'a, 'b> {
         self.p.st.apply_remote_deltas(vec![d.clone()]);
     }
 
+    /// One of the four tracked writes (SET / HSET / DEL / HDEL): reply shape, "acknowledged =>
+    /// a delta exists and carries what was written", then the common judgement of the delta.
     async fn local_write(&mut self, what: String, argv: Vec<String>, key: &str, w: Written) -> Result<(), String> {
-        let s = shard_of(key);
-        let seen_before = self.seen_ckpt[s].max(self.seen_other[s]);
         let args: Vec<&str> = argv.iter().map(|x| x.as_str()).collect();
         let (reply, mut deltas) = exec(&self.n, &args).await?;
         self.trace.push(format!(
@@ -431,39 +522,25 @@ impl<'a, 'b> H<'a, 'b> {
                 self.ctx.label("local_noop");
                 return Ok(());
             }
+            if matches!(w, Written::Del | Written::HDel(_)) && self.unrecorded.contains(key) {
+                // the executor entry was created by a command that is never recorded (C06's
+                // domain: such writes do not replicate at all); no stamp is involved
+                self.ctx.label("local:delete_of_unrecorded_entry");
+                self.last_w.retain(|(k, _), _| k != key);
+                return Ok(());
+            }
             return Err(self.fail(format!(
                 "{}: the write was acknowledged ({}) but no delta was emitted, so no replica can ever see it",
                 what,
                 reply.show()
             )));
         };
-        if delta.key != key || delta.source_replica.0 != N_ID {
-            return Err(self.fail(format!(
-                "{}: delta is for key {:?} from replica {} (expected {:?} from {})",
-                what, delta.key, delta.source_replica.0, key, N_ID
-            )));
+        if delta.key != key {
+            return Err(self.fail(format!("{}: delta is for key {:?} (expected {:?})", what, delta.key, key)));
         }
-        let log_idx = self.log.len();
-        self.log.push(delta.clone());
-        if written.is_empty() {
-            // a no-op command that still emitted a delta (DEL of a key the executor does not
-            // hold, HDEL of a missing field): nothing was acknowledged as written, so (i) does
-            // not speak about it; the peer and the log still get it.
-            self.ctx.label("local_noop_with_delta");
-            self.deliver_to_peer(&delta);
-            return Ok(());
-        }
-        self.ctx.label("local_write");
-        if self.inc > 0 && self.recovered_keys.contains(key) {
-            self.nontrivial = true;
-            self.ctx.label("write_to_recovered_key");
-        }
-
-        // ---- (i) stamps introduced by this write
         let slots = slots_of(&delta.value);
-        let mut fresh: Vec<(String, Stamp)> = Vec::new();
         for (f, expect) in &written {
-            let Some((_, st, val)) = slots.iter().find(|(sf, _, _)| sf == f) else {
+            let Some((_, _, val)) = slots.iter().find(|(sf, _, _)| sf == f) else {
                 return Err(self.fail(format!("{}: the delta {} has no entry for the written slot {:?}", what, show_value(&delta.value), f)));
             };
             let got = val.as_ref().map(|b| String::from_utf8_lossy(b).into_owned());
@@ -473,14 +550,141 @@ impl<'a, 'b> H<'a, 'b> {
                     what, got, f, expect
                 )));
             }
-            fresh.push((if f.is_empty() { "register".to_string() } else { format!("field {}", f) }, *st));
         }
+        if written.is_empty() {
+            self.ctx.label("local_noop_with_delta");
+        } else {
+            self.ctx.label("local_write");
+        }
+        self.judge_local_delta(&what, delta, true).await
+    }
+
+    /// Any other client command at N. Nothing is assumed about what it does; whatever deltas
+    /// it emits are judged like those of the tracked writes, and afterwards the bookkeeping of
+    /// "what N must still serve" is brought in line with what N serves (a command that is not
+    /// a read may legitimately change it, recorded or not).
+    async fn local_any(&mut self, argv: &[String]) -> Result<(), String> {
+        let args: Vec<&str> = argv.iter().map(|x| x.as_str()).collect();
+        let name = args[0].to_ascii_uppercase();
+        let what = argv.join(" ");
+        let a: Vec<Vec<u8>> = args.iter().map(|x| x.as_bytes().to_vec()).collect();
+        let cmd = match parse_zc(&a) {
+            Ok(c) => c,
+            Err(e) => {
+                // rejected by the parser: the connection answers the error, the state is not reached
+                self.trace.push(format!("[inc {}] {} -> parse error {}", self.inc, what, e));
+                self.ctx.label("local:parse_error");
+                return Ok(());
+            }
+        };
+        let reply = Reply::from_resp(&self.n.st.execute(cmd).await);
+        let deltas = self.n.rx.drain();
+        self.trace.push(format!(
+            "[inc {}] {} -> {}  delta: {}",
+            self.inc,
+            what,
+            if name == "INFO" { "(info)".to_string() } else { reply.show() },
+            if deltas.is_empty() {
+                "none".to_string()
+            } else {
+                deltas.iter().map(|d| format!("{}: {}", d.key, show_value(&d.value))).collect::<Vec<_>>().join("; ")
+            }
+        ));
+        let class = match name.as_str() {
+            "GET" | "HGET" | "HGETALL" | "EXISTS" | "MGET" | "TYPE" | "TTL" | "STRLEN" | "KEYS" | "DBSIZE" | "PING"
+            | "HLEN" | "INFO" | "NOSUCHCMD" => "read_or_server",
+            "EXPIRE" | "PEXPIRE" | "PERSIST" => "ttl",
+            "FLUSHALL" | "FLUSHDB" => "flush",
+            _ if reply.is_error() => "failed",
+            "SETNX" | "MSET" | "GETDEL" | "INCRBYFLOAT" | "SETRANGE" | "LPUSH" | "SADD" => "unrecorded_write",
+            _ => "recorded_family",
+        };
+        self.ctx.label(&format!("local:{}", class));
+        if !deltas.is_empty() {
+            self.ctx.label("local:emitted_delta");
+        }
+        for d in deltas {
+            self.judge_local_delta(&what, d, false).await?;
+        }
+        if class == "unrecorded_write" {
+            for x in &args[1..] {
+                self.unrecorded.insert(x.to_string());
+            }
+        }
+        if class != "read_or_server" {
+            // what N serves may have changed without a delta (unrecorded commands, a multi-key
+            // DEL whose first keys' deltas never reach the sink, a flush): N is no longer held
+            // to an earlier write of those keys unless it still serves it
+            let all = class == "flush";
+            let slots: Vec<(String, String)> = self
+                .last_w
+                .keys()
+                .filter(|(k, _)| all || args.iter().any(|x| x == k))
+                .cloned()
+                .collect();
+            for (k, f) in slots {
+                let got = read_slot(&self.n, &k, &f).await?;
+                let want = match &self.last_w[&(k.clone(), f.clone())].value {
+                    Some(v) => Reply::bulk(v),
+                    None => Reply::Nil,
+                };
+                if got != want {
+                    self.last_w.remove(&(k, f));
+                    self.ctx.label("local:overrides_earlier_write");
+                }
+            }
+        }
+        Ok(())
+    }
+
+    /// Judgement of one delta emitted by a local command.
+    /// (i)  every slot of the delta that N had not been shown before (same key, slot, stamp and
+    ///      content) was introduced by this command: its stamp, and then also the delta's outer
+    ///      stamp, must carry N's replica id and be strictly greater than every stamp shown to
+    ///      that shard in this incarnation;
+    /// (ii) a peer that holds only what N had observed serves the introduced content after
+    ///      merging the delta.
+    async fn judge_local_delta(&mut self, what: &str, delta: ReplicationDelta, tracked: bool) -> Result<(), String> {
+        let key = delta.key.clone();
+        if delta.source_replica.0 != N_ID {
+            return Err(self.fail(format!(
+                "{}: delta for {:?} names replica {} as its source (expected {})",
+                what, key, delta.source_replica.0, N_ID
+            )));
+        }
+        let s = shard_of(&key);
+        let seen_before = self.seen_ckpt[s].max(self.seen_other[s]);
+        let log_idx = self.log.len();
+        self.log.push(delta.clone());
+        let slots = slots_of(&delta.value);
+        let introduced: Vec<(String, Stamp, Option<Vec<u8>>)> = slots
+            .iter()
+            .filter(|(f, st, val)| !self.shown_slots.contains(&(key.clone(), f.clone(), *st, val.clone())))
+            .cloned()
+            .collect();
+        self.note_slots(&key, &delta.value);
+        if introduced.is_empty() {
+            // nothing new (DEL of a hash key, HDEL of a missing field, ...): (i) does not speak
+            // about it; the log and the peer still get it
+            self.deliver_to_peer(&delta);
+            return Ok(());
+        }
+        if self.inc > 0 && self.recovered_keys.contains(&key) {
+            self.nontrivial = true;
+            self.ctx.label("write_to_recovered_key");
+        }
+
+        // ---- (i)
+        let mut fresh: Vec<(String, Stamp)> = introduced
+            .iter()
+            .map(|(f, st, _)| (if f.is_empty() { "register".to_string() } else { format!("field {}", f) }, *st))
+            .collect();
         fresh.push(("outer".to_string(), stamp(&delta.value.timestamp)));
         let mut tolerated = false;
         for (name, st) in &fresh {
             if st.1 != N_ID {
                 return Err(self.fail(format!(
-                    "{}: {} stamp ({}, r{}) of a local write does not carry the node's replica id {}",
+                    "{}: {} stamp ({}, r{}) introduced by a local command does not carry the node's replica id {}",
                     what, name, st.0, st.1, N_ID
                 )));
             }
@@ -514,45 +718,59 @@ impl<'a, 'b> H<'a, 'b> {
             self.seen_other[s] = self.seen_other[s].max(*st);
         }
 
-        // ---- (ii) a peer that holds only what N had observed serves the new value
+        // ---- (ii)
         let mut pre: BTreeMap<String, bool> = BTreeMap::new();
-        for (f, _) in &written {
-            let held = self.peer_max.get(&(key.to_string(), f.clone())).copied().unwrap_or((0, 0));
+        for (f, _, _) in &introduced {
+            let held = self.peer_max.get(&(key.clone(), f.clone())).copied().unwrap_or((0, 0));
             pre.insert(f.clone(), held <= seen_before);
         }
         self.deliver_to_peer(&delta);
-        for (f, expect) in &written {
+        for (f, st, val) in &introduced {
             let pre_ok = pre[f];
-            let st = slots.iter().find(|(sf, _, _)| sf == f).map(|x| x.1).unwrap_or((0, 0));
-            self.last_w.insert(
-                (key.to_string(), f.clone()),
-                LastW {
-                    value: expect.clone(),
-                    stamp: st,
-                    seen_before,
-                    tolerated,
-                    pre_ok,
-                    inc: self.inc,
-                    log_idx,
-                    what: what.clone(),
-                },
-            );
+            let expect: Option<String> = val.as_ref().map(|b| String::from_utf8_lossy(b).into_owned());
+            let want = match &expect {
+                Some(v) => Reply::bulk(v),
+                None => Reply::Nil,
+            };
+            // does N itself serve what the delta says it wrote?
+            let own = read_slot(&self.n, &key, f).await?;
+            if own == want {
+                self.last_w.insert(
+                    (key.clone(), f.clone()),
+                    LastW {
+                        value: expect.clone(),
+                        stamp: *st,
+                        seen_before,
+                        tolerated,
+                        pre_ok,
+                        inc: self.inc,
+                        log_idx,
+                        what: what.to_string(),
+                    },
+                );
+            } else if tracked {
+                return Err(self.fail(format!(
+                    "{}: acknowledged, the delta carries {} for {} {}, but the node itself serves {}",
+                    what, want.show(), key, f, own.show()
+                )));
+            } else {
+                // a conditional SET that did not write, or a failing command, still recorded a
+                // value (C06's findings KF-C06-01/02): not a stamp matter; N is not held to it
+                self.last_w.remove(&(key.clone(), f.clone()));
+                self.ctx.label("local:delta_differs_from_served_value");
+            }
             if !pre_ok {
                 self.ctx.label("peer_holds_unobserved_value");
                 continue;
             }
             self.ctx.label("peer_checked");
-            let got = read_slot(&self.p, key, f).await?;
-            let want = match expect {
-                Some(v) => Reply::bulk(v),
-                None => Reply::Nil,
-            };
+            let got = read_slot(&self.p, &key, f).await?;
             if got != want {
                 if tolerated && self.kf_open {
                     continue;
                 }
                 return Err(self.fail(format!(
-                    "{}: a peer that held only values the node had observed merged the delta and serves {} for {} {}, expected {} (the acknowledged write does not supersede the older value)",
+                    "{}: a peer that held only values the node had observed merged the delta and serves {} for {} {}, expected {} (the new stamp does not supersede the older value)",
                     what, got.show(), key, f, want.show()
                 )));
             }
@@ -694,6 +912,8 @@ impl<'a, 'b> H<'a, 'b> {
         self.seen_ckpt = [(0, 0); NUM_SHARDS];
         self.seen_other = [(0, 0); NUM_SHARDS];
         self.recovered_keys.clear();
+        self.shown_slots.clear();
+        self.unrecorded.clear();
 
         // what is fed, per key, for the bookkeeping below
         let mut fed: BTreeMap<String, Vec<ReplicatedValue>> = BTreeMap::new();
@@ -786,6 +1006,8 @@ fn check_case(case: &Case, ctx: &mut CaseCtx<'_>) -> Result<(), String> {
             recovered_keys: BTreeSet::new(),
             peer_max: BTreeMap::new(),
             last_w: BTreeMap::new(),
+            shown_slots: BTreeSet::new(),
+            unrecorded: BTreeSet::new(),
             trace: Vec::new(),
             nontrivial: false,
         };
@@ -864,6 +1086,14 @@ fn check_case(case: &Case, ctx: &mut CaseCtx<'_>) -> Result<(), String> {
                     Op::Echo { hash, k } => {
                         let key = if *hash { hkey(*k) } else { skey(*k) };
                         h.echo(key).await;
+                    }
+                    Op::Local { argv } => {
+                        if argv.is_empty() {
+                            continue;
+                        }
+                        let num = format!("{}", 1000 * (pi + 1) + oi);
+                        let argv: Vec<String> = argv.iter().map(|a| a.replace("$V", &tag).replace("$N", &num)).collect();
+                        h.local_any(&argv).await?;
                     }
                 }
             }
